@@ -714,8 +714,9 @@ func (w *W) opMerge() string {
 	if w.F.FieldOpts && w.Sep != "" && mo.Global != model.HReplace {
 		cands := w.fieldPaths(dst.M, srcTree)
 		n := t.Choose(4, "n-field-opts")
-		wildMerge := t.Chance(1, 6, "field-opt-wild")
 		used := map[string]bool{}
+		inExplicit := map[string]bool{} // names occurring in explicit option paths
+		wildNames := map[string]bool{}
 		for i := 0; i < n && len(cands) > 0; i++ {
 			var p []string
 			if t.Chance(1, 5, "field-opt-absent") {
@@ -731,14 +732,27 @@ func (w *W) opMerge() string {
 			h := []model.Handling{model.HMerge, model.HReplace, model.HAppend, model.HPrepend}[t.Choose(4, "field-opt-policy")]
 			fo := model.FieldOpt{Path: p, H: h}
 			name := key
-			// a merge carries either explicit paths or "**" wildcards: how an explicit path
-			// inside the subtree of a wildcard match combines with it is not defined by C16
-			if wildMerge && !used["~"+last] {
-				if _, err := strconv.Atoi(last); err != nil {
-					fo = model.FieldOpt{Path: []string{last}, Wild: true, H: h}
-					name = "**." + last
-				} else {
+			// how an explicit path that runs through (or ends at) a node matched by a "**"
+			// wildcard combines with it is not defined by C16: such pairs are not generated
+			if t.Chance(1, 5, "field-opt-wild") {
+				if _, err := strconv.Atoi(last); err == nil || inExplicit[last] {
 					continue
+				}
+				fo = model.FieldOpt{Path: []string{last}, Wild: true, H: h}
+				name = "**." + last
+				wildNames[last] = true
+			} else {
+				clash := false
+				for _, x := range p {
+					if wildNames[x] {
+						clash = true
+					}
+				}
+				if clash {
+					continue
+				}
+				for _, x := range p {
+					inExplicit[x] = true
 				}
 			}
 			used[name] = true
